@@ -20,6 +20,8 @@ Lemma om_eq : optmap_of c11_options = om.
 Proof. reflexivity. Qed.
 Lemma caught_eq : c11_argerror_caught = true.
 Proof. reflexivity. Qed.
+Lemma raises_eq : c11_error_raises = true.
+Proof. reflexivity. Qed.
 
 Definition opt_of (k : kind) : optdef := match k with KD => oD | KP => oP | KF => oF end.
 
@@ -546,5 +548,5 @@ Proof. apply scan_neutral. Qed.
 Theorem never_raises argv : parse_args argv <> RRaise.
 Proof.
   unfold parse_args, parse_args_with. rewrite caught_eq.
-  destruct (parse_known_args c11_options argv); discriminate.
+  destruct (parse_known_args c11_options c11_error_raises argv); discriminate.
 Qed.
